@@ -31,7 +31,7 @@ def gen(rng, index, tier):
     standin = rng.random() < 0.3
     config = list(rng.choice(algos.TEN_STANDIN if standin else algos.TEN))
     nmax = 6 if algos.uses_solver(config) else 8
-    raw, meta = lib.gen_dataset(rng, nmax=nmax, mmax=5)
+    raw, meta = lib.gen_dataset(rng, nmax=nmax, mmax=5, big=0.0 if algos.uses_solver(config) else 0.03)
     if config[0] in ("pickaperm", "borda", "bioco") or (config[0] == "bioconsert" and config[1]) and rng.random() < 0.7:
         sch = common.family_scheme(rng, rng.choice(["unifying", "unifying", "induced", "unifying_half", "grid"]))
     elif config[0] in ("bioconsert", "bioco", "kwik", "copeland"):
